@@ -371,4 +371,20 @@ theorem allSome_eq_some {α : Type} (l : List (Option α)) (r : List α) : allSo
         · rintro ⟨r', h1, rfl, rfl⟩; exact ⟨rfl, (ih _).mp h1⟩
         · rintro ⟨rfl, h⟩; exact ⟨bs, (ih _).mpr h, rfl, rfl⟩
 
+/-- `int()` of a width token, on the string the record carries: defined exactly on `intOK` tokens, with the value `natOf` -/
+theorem intTok?_ofList (t : Txt) : KV.Def.intTok? (String.ofList t) = if intOK t then some (natOf t) else none := by
+  simp only [KV.Def.intTok?, String.toList_ofList, intOK, natOf]
+  rfl
+
+theorem toWire_widthVal (sp : Bool) (w : TWire) :
+    (w.toWire sp).widthVal =
+      match w.width with
+      | none => some none
+      | some t => if intOK t then some (some (natOf t)) else none := by
+  cases hw : w.width with
+  | none => simp [TWire.toWire, KV.Def.DWire.widthVal, hw]
+  | some t =>
+    simp only [TWire.toWire, KV.Def.DWire.widthVal, hw, Option.map_some, intTok?_ofList]
+    split <;> rfl
+
 end KV.DefText
